@@ -210,7 +210,7 @@ theorem sheet_a1_roundtrip (cc : CharClass) (hcc : CharClassOK cc) (n : List Cha
     unfold resolvedRow resolvedCol
     generalize (if r.absRow = true then r.row else r.row + cr) = row at *
     generalize (if r.absCol = true then r.column else r.column + ccol) = col at *
-    have e1 : ¬ row < 1 := by omega
+    have e1 : ¬ (row < 1 ∨ row > (LAST_ROW : Int)) := by unfold LAST_ROW; omega
     have e2 : (decide (1 ≤ col) && decide (col ≤ ((16384 : Nat) : Int))) = true := by simp; omega
     simp only [e1, if_false, e2, if_true, Bool.false_eq_true]
     rw [intToDec_nonneg row (by omega)]
